@@ -117,7 +117,7 @@ fn mutate_phrase(rng: &mut Rng, phrase: &str, vocab: &[String]) -> String {
 pub fn run(ctx: &Ctx) -> Outcome {
     let n_streams = ctx.n(900_000, 16_000_000);
     let n_phrases = ctx.n(700_000, 12_000_000);
-    let rep = run_sharded(ctx, |w, nw, rep| {
+    let mut rep = run_sharded(ctx, |w, nw, rep| {
         let ls = LangSet::new();
         let mut rng = Rng::derive(ctx.seed, "C07", w as u64);
         for i in 0..(n_streams / nw as u64) {
@@ -206,6 +206,9 @@ pub fn run(ctx: &Ctx) -> Outcome {
             }
         }
     });
+    if !ctx.quick() {
+        super::legs::fuzz_leg(ctx, &mut rep, 45);
+    }
     let rule = "cases = (a,c) grammar-noise token streams (half with whitespace tokens, random case and hints) scanned at threshold 0: every non-decimal occurrence is re-validated on exactly its own words, every uncovered unflagged word must fail validation; (b) phrases = speller output (cardinal variants, ordinal inflections), their one-word mutations and random 1..6-word sequences over the number vocabulary: whenever the validator accepts, the scanner (no annotation) must report exactly one occurrence with the same digits; non-trivial = at least one occurrence or outside word judged / the phrase validated";
     finish(ctx, rep, rule, &["decimal occurrences are outside clause (a) as in the statement", "tokens flagged not-a-number-part by a hint count as set aside"], vec![])
 }
